@@ -59,10 +59,17 @@ PROPS["C11"] = [
       symbolic="start,end,step each absent or in [-(2^53-1), 2^53-1]", shape="array of %d markers" % n, est=e)
     for n, e in ((0, 10), (1, 30), (2, 60), (3, 200), (4, 400))
 ]
+PROPS["C11"] += [
+    H("selector", "c11_slice_len%d" % n, tiers="t", funcs=["query::selector::process_slice"],
+      symbolic="start,end,step each absent or in [-(2^53-1), 2^53-1]", shape="array of %d markers (K = 8 allocation regime)" % n, est=e, timeout=2400)
+    for n, e in ((5, 300), (6, 400), (7, 550), (8, 650))
+] + [
+    H("selector", "c11_index_len8", tiers="t", funcs=["query::selector::process_index"], symbolic="i in [-(2^53-1), 2^53-1]", shape="array of 8 markers (K = 8)", est=10),
+]
 PROP_INFO["C11"] = {
-    "bounds": {"quick": "array length in {0,1,3,4}; index/start/end/step any I-JSON integer or absent",
-               "thorough": "same, plus more lengths"},
-    "outside": ["arrays longer than 4 (K)", "integers outside the I-JSON range", "the parser's own range check"],
+    "bounds": {"quick": "index: array length in {0,1,3,4}; slice: lengths 0..4; index/start/end/step any I-JSON integer or absent",
+               "thorough": "same plus slice on lengths 5..8 and index on length 8 (K = 8 allocation regime)"},
+    "outside": ["arrays longer than 4 (quick) / 8 (thorough)", "integers outside the I-JSON range", "the parser's own range check"],
 }
 
 HOOK_COMMITS = ["fda5525", "8508a74"]
@@ -152,9 +159,12 @@ PROPS["C05"] = [
     for k in ("null", "false", "int", "str", "empty_arr", "arr", "empty_obj", "missing")
 ] + [
     H("filter", "c05_select_arr_" + k, funcs=_C05F, symbolic="3 elements (any i64), constant c in I-JSON", shape="array of 3, predicate @ %s c" % k, est=200, timeout=900)
-    for k in ("gt", "eq", "lt", "ne")
+    for k in ("gt", "eq")
 ] + [
-    H("filter", "c05_select_obj_lt", funcs=_C05F, symbolic="2 member values, constant", shape="object of 2, predicate @ < c", est=200, timeout=900),
+    H("filter", "c05_select_arr_" + k, tiers="t", funcs=_C05F, symbolic="3 elements (any i64), constant c in I-JSON", shape="array of 3, predicate @ %s c" % k, est=300, timeout=1500)
+    for k in ("lt", "ne", "lte")
+] + [
+    H("filter", "c05_select_obj_lt", tiers="t", funcs=_C05F, symbolic="2 member values, constant", shape="object of 2, predicate @ < c", est=300, timeout=1500),
     H("filter", "c05_abs_query_filter", funcs=_C05F + ["query::test::Test::process (AbsQuery)", "State::shift_to_root"], symbolic="two root elements, constant c",
       shape="root [r0,r1], current node null, test ?$[?@ == c]", est=200, timeout=900),
     H("filter", "c05_select_scalar", funcs=_C05F, symbolic="scalar value", shape="filter on a scalar", est=20),
